@@ -585,6 +585,163 @@ func clientPhase(cfg *config.Config) {
 	_ = errors.New
 }
 
+// ---- (e) abandoned upload attempts ----
+
+// hookedFile is the client-side upload source: one file, one file position,
+// shared by every attempt the way a Transformer's reader is. Seek and Read are
+// scheduling points.
+type hookedFile struct{ f *os.File }
+
+func (h hookedFile) point(label string) {
+	if s := mc.Active(); s != nil {
+		if t := s.Me(); t != nil {
+			t.Point(label)
+		}
+	}
+}
+
+func (h hookedFile) GetReader() (io.Reader, error) {
+	h.point("file.seek0")
+	if _, err := h.f.Seek(0, 0); err != nil {
+		return nil, err
+	}
+	return hookedReader{h}, nil
+}
+
+type hookedReader struct{ h hookedFile }
+
+func (r hookedReader) Read(p []byte) (int, error) {
+	r.h.point("file.read")
+	return r.h.f.Read(p)
+}
+
+// abandonPhase: the first upload attempt is cut short by the server (it reads
+// nothing, one byte, or the compression header of the body, answers 503 and
+// the transport closes the request body, as net/http does); the client moves
+// on to the next server with the same Transformer. The compressor goroutine
+// of the abandoned attempt is adopted by the scheduler at its first read of
+// the shared file, and every interleaving of its reads with the second
+// attempt's seek and reads (up to the preemption bound) must deliver the
+// file's bytes to the second server.
+func abandonPhase(cfg *config.Config) {
+	realStdout := os.Stdout
+	if devnull, err := os.OpenFile(os.DevNull, os.O_WRONLY, 0); err == nil {
+		os.Stdout = devnull
+		defer func() { os.Stdout = realStdout; devnull.Close() }()
+	}
+	const block = 32 << 10
+	nblocks := 4
+	content := make([]byte, nblocks*block)
+	for i := range content {
+		content[i] = byte('A' + i/block) // compresses to almost nothing: many file reads per pipe write
+	}
+	path := filepath.Join(scratch, "abandon.bin")
+	if err := os.WriteFile(path, content, 0o644); err != nil {
+		panic(err)
+	}
+	want := sha256.Sum256(content)
+	bound := 1
+	if run.Thorough() {
+		bound = 2
+	}
+	cuts := []int{0, 1, 10}
+	encs := []string{"gzip", "x-snappy-framed", ""}
+	for _, enc := range encs {
+		for _, cut := range cuts {
+			if enc == "" && cut != 1 {
+				continue
+			}
+			cfg.Remote = &config.RemoteConfig{Retries: 1}
+			relicx.Use(cfg)
+			v0 := run.NumViolations()
+			extBlocks := 0
+			st := mc.Explore(mc.Options{MaxDeviations: bound, Stop: func() bool { return run.NumViolations() > v0 }}, func(c *mc.Ctx) {
+				f, err := os.Open(path)
+				if err != nil {
+					panic(err)
+				}
+				defer f.Close()
+				src := hookedFile{f}
+				s := mc.NewSched(c)
+				s.AdoptUnknown = true
+				attempt := 0
+				var got [][32]byte
+				var gotLen []int
+				var encSeen []string
+				hc := &http.Client{Transport: rt(func(req *http.Request) (*http.Response, error) {
+					attempt++
+					mk := func(code int) *http.Response {
+						return &http.Response{StatusCode: code, Status: fmt.Sprintf("%d X", code), Header: http.Header{}, Body: io.NopCloser(strings.NewReader("scripted")), Request: req}
+					}
+					if attempt == 1 {
+						if cut > 0 {
+							io.ReadFull(req.Body, make([]byte, cut))
+						}
+						// the moment the transport gives up on this attempt
+						src.point("transport.abandon")
+						req.Body.Close()
+						return mk(503), nil
+					}
+					raw, _ := io.ReadAll(req.Body)
+					req.Body.Close()
+					e := req.Header.Get("Content-Encoding")
+					encSeen = append(encSeen, e)
+					var body []byte
+					dreq := httptest.NewRequest("POST", "/x", bytes.NewReader(raw))
+					dreq.Header.Set("Content-Encoding", e)
+					compresshttp.Middleware(http.HandlerFunc(func(w http.ResponseWriter, r *http.Request) {
+						body, _ = io.ReadAll(r.Body)
+					})).ServeHTTP(httptest.NewRecorder(), dreq)
+					got = append(got, sha256.Sum256(body))
+					gotLen = append(gotLen, len(body))
+					return mk(204), nil
+				})}
+				var derr error
+				s.Go("client", func() {
+					q := url.Values{}
+					q.Set("key", "rsaA")
+					resp, err := remotecmd.VerifDoRequest(cfg.Remote, hc, []string{"https://s0.invalid/", "https://s1.invalid/"}, "sign", "POST", enc, &q, src)
+					derr = err
+					if resp != nil {
+						resp.Body.Close()
+					}
+				})
+				s.Run()
+				extBlocks += s.ExtBlocks
+				if os.Getenv("C09_DEBUG") != "" {
+					fmt.Fprintf(os.Stderr, "ABANDON enc=%q cut=%d trace=%v log=%v\n", enc, cut, c.Trace, s.Log)
+				}
+				run.Eval(1)
+				desc := fmt.Sprintf("accept-encoding %q, first server cut the upload after %d byte(s) and answered 503; schedule %v", enc, cut, c.Trace)
+				replay := map[string]any{"encodings": enc, "cut": cut, "choices": c.Trace, "labels": c.Labels, "log": s.Log}
+				if c.Deviations() > 0 {
+					run.Distinct("abandon|" + desc)
+				}
+				switch {
+				case s.Deadlock:
+					run.Violation("abandoned-attempt:deadlock", desc+"\n"+strings.Join(s.Log, " "), replay)
+				case len(s.Panics) > 0:
+					run.Violation("abandoned-attempt:panic", desc+": "+s.Panics[0], replay)
+				case s.Horizon:
+					run.Capped("abandoned-attempt exploration: an execution exceeded the scheduling-point horizon")
+				case derr != nil || len(got) != 1:
+					run.Violation("abandoned-attempt:second-attempt-fails", fmt.Sprintf("%s: err=%v, complete uploads seen %d", desc, derr, len(got)), replay)
+				case got[0] != want:
+					run.Violation("abandoned-attempt:second-upload-is-not-the-file", fmt.Sprintf("%s: the second server received %d bytes (sha256 %x), the file has %d (sha256 %x)\n%s", desc, gotLen[0], got[0][:6], len(content), want[:6], strings.Join(s.Log, " ")), replay)
+				default:
+					run.Outcome("abandoned-attempt:second-upload-intact")
+				}
+			})
+			run.AddStates(st.Executions)
+			run.AddTransitions(st.ChoicePoints)
+			run.Set(fmt.Sprintf("abandoned_attempt_schedules:%s:cut=%d", map[string]string{"": "identity"}[enc]+enc, cut), map[string]any{"executions": st.Executions, "preemption_bound": bound, "threads_found_parked_outside_scheduler": extBlocks})
+			if st.Capped {
+				run.Capped(fmt.Sprintf("abandoned-attempt exploration for %q cut=%d stopped at its first violation", enc, cut))
+			}
+		}
+	}
+}
+
 func main() {
 	relicx.Quiet()
 	run = vlib.NewRun("C09", "model_checking")
@@ -604,7 +761,8 @@ func main() {
 	uploads := rereadPhase(ss)
 	chunkPhase(cfg, ss, uploads)
 	clientPhase(cfg)
-	run.Rule("(a) the client-side transform of 22 upload streams (every signer type, PGP in three modes) read three times; (b) each stream x every read-size schedule: constant sizes {1,2,7,511,512,513,4095,4096,4097,65535,65536,65537,2^20-1,2^20,2^20+1,unbounded}, ordered pairs as 2-cycles (quick: 7-value sub-ladder; thorough: full ladder), one short read (1 byte; one byte under the copy buffer) at every read index of the default schedule (capped at 80 indices) - the real server-side Sign, then Apply, Fixup and relic verify with integrity on; (c)+(d) every sequence of per-attempt outcomes {ok, 503, 500, 406, refused, 403} through the real client doRequest loop for accept-encodings {none, gzip, snappy, both, unknown} x 1-3 servers x retries {1,3}. distinct_nontrivial = (stream,schedule) pairs + failover histories with >=2 attempts")
+	abandonPhase(cfg)
+	run.Rule("(a) the client-side transform of 22 upload streams (every signer type, PGP in three modes) read three times; (b) each stream x every read-size schedule: constant sizes {1,2,7,511,512,513,4095,4096,4097,65535,65536,65537,2^20-1,2^20,2^20+1,unbounded}, ordered pairs as 2-cycles (quick: 7-value sub-ladder; thorough: full ladder), one short read (1 byte; one byte under the copy buffer) at every read index of the default schedule (capped at 80 indices) - the real server-side Sign, then Apply, Fixup and relic verify with integrity on; (c)+(d) every sequence of per-attempt outcomes {ok, 503, 500, 406, refused, 403} through the real client doRequest loop for accept-encodings {none, gzip, snappy, both, unknown} x 1-3 servers x retries {1,3}; (e) an upload attempt cut short by the server after {0,1,10} bytes (503, request body closed by the transport) followed by a second attempt from the same Transformer, for gzip / snappy / identity: the abandoned attempt's compressor goroutine is adopted by the cooperative scheduler at its first read of the shared file, every interleaving of file seek/read operations of the two attempts up to 1 (thorough 2) preemptions, threads parked in the pipe followed by the scheduler's monitor. distinct_nontrivial = (stream,schedule) pairs + failover histories with >=2 attempts")
 	run.Assume("'the same content digest' is decided by relic's verifier accepting the patched file with integrity checking on (the digest the verifier recomputes is a function of the file alone), since signatures embed the signing time and cannot be compared byte-wise")
 	run.Assume("request bodies are compared after decoding with relic's own compresshttp middleware")
 	run.Finish()
